@@ -1,8 +1,9 @@
 Require Extraction.
 Require Import ExtrOcamlBasic.
 From Coq Require Import ZArith List.
-From HV Require Import Subfield.IntAdapters.
+From HV Require Import Subfield.IntAdapters Subfield.Literal.
 From HVgen Require Import C09_gen.
 Extraction Language OCaml.
 Extraction "c09_model.ml" s_deserialize s_serialize registered_ok registered_fits registry
+  print_plit parse_plit lit_of_value value_of_lit safe_plit
   Z.add Z.mul Z.opp Z.div_eucl Z.eqb Z.ltb Z.to_nat Z.to_N.
